@@ -70,7 +70,7 @@ AXES = {
     "signal": ["none", "f64", "f32", "f16"],
     "image": ["none", "u16", "u8", "u32", "u64", "u64big", "u16>u32", "u32>u16"],
     "scene": ["no", "yes"],
-    "data": ["none", "flat", "nested"],
+    "data": ["none", "flat", "nested", "swapped"],
     "debug": ["off", "on", "const"],
     "flags": ["no", "ro_off"],    # ro_off: a model clears detector.read_out in odd steps (every step still is a readout)
     "alias": ["no", "yes"],       # yes: the pixel / signal / image writers re-use one buffer per bucket (see exp_util._assign)
